@@ -17,6 +17,12 @@ CHECKS = {
          "changed' are action properties checked on every transition of the model; the real code is swept across every limit, block "
          "boundary, inconsistent byte count and single-coil word and each step is validated by TLC.", "4 C05",
          "TLC model checking of DataModelMC + TLC trace validation (DataModelTrace) of boundary sweeps"),
+ "C18": ("Blocks", "model_checking",
+         "TLC exhausts every sequential block (start 0..3, length 1..3) and every sparse block over subsets of 0..4 under all "
+         "validate/get/set/reset sequences, and a server context under all get/set/del sequences, against a naive ghost (function "
+         "populated address -> value; registered unit -> context); the real datastore classes are driven through the same small blocks "
+         "and through real-size blocks around every boundary (0, 1, 65535, 65536) and each operation is validated by TLC.", "4 C18",
+         "TLC model checking of BlocksMC + TLC trace validation (BlocksTrace) of operation sequences on the real classes"),
 }
 NA_REASON = "check not built yet in this round (see DESIGN.md section 8 for the order of work); no claim is made"
 ALL = ["C%02d" % i for i in range(1, 21)]
